@@ -636,7 +636,44 @@ impl<'a> Gen<'a> {
             }
             p.sql()
         };
-        let shape = self.rng.usize(22);
+        let shape = self.rng.usize(23);
+        if shape == 22 {
+            // join / semi join on columns of different numeric kinds (`=` converts; a plan that
+            // makes them hash or merge keys must agree with one that evaluates `=`)
+            let num = |t: Ty| matches!(t, Ty::SmallInt | Ty::Int | Ty::BigInt | Ty::Double | Ty::Decimal);
+            let kind = |t: Ty| match t {
+                Ty::Double => 1,
+                Ty::Decimal => 2,
+                _ => 0,
+            };
+            let mut pairs = vec![];
+            for x in a.cols.iter().filter(|c| num(c.ty)) {
+                for y in b.cols.iter().filter(|c| num(c.ty)) {
+                    if kind(x.ty) != kind(y.ty) {
+                        pairs.push((x.name.clone(), y.name.clone()));
+                    }
+                }
+            }
+            if pairs.is_empty() {
+                return None;
+            }
+            let (xc, yc) = pairs[self.rng.usize(pairs.len())].clone();
+            let sql = match self.rng.usize(3) {
+                0 => format!(
+                    "SELECT x.{}, x.{xc}, y.{yc} FROM {} x JOIN {} y ON x.{xc} = y.{yc}",
+                    ak.name, a.name, b.name
+                ),
+                1 => format!(
+                    "SELECT x.{}, x.{xc}, y.{yc} FROM {} x LEFT JOIN {} y ON x.{xc} = y.{yc}",
+                    ak.name, a.name, b.name
+                ),
+                _ => format!(
+                    "SELECT x.{}, x.{xc} FROM {} x WHERE EXISTS (SELECT 1 FROM {} y WHERE y.{yc} = x.{xc})",
+                    ak.name, a.name, b.name
+                ),
+            };
+            return Some(Stmt::Raw(sql));
+        }
         if shape >= 15 {
             // shapes whose two plans (in-memory statistics vs on-disk statistics, disk-only rules)
             // differ in more than the join algorithm
@@ -986,7 +1023,10 @@ impl<'a> Gen<'a> {
             // statements the engine must reject (or survive) without lasting damage
             self.next_obj += 1;
             let n = self.next_obj;
-            return Stmt::Raw(match self.rng.usize(3) {
+            return Stmt::Raw(match self.rng.usize(4) {
+                // a user table in the system schema (ids are per schema, the storage keys by
+                // the bare table id)
+                3 => format!("CREATE TABLE pg_catalog.odd{n} (c0 INT); DROP TABLE pg_catalog.odd{n}"),
                 0 => format!("CREATE TABLE odd{n} (_rowid_ INT, c1 INT)"),
                 1 => format!("CREATE TABLE odd{n} (); INSERT INTO odd{n} VALUES (1)"),
                 _ => format!("CREATE TABLE odd{n} (c0 INT, c0 INT)"),
